@@ -6,6 +6,7 @@ mod c08;
 mod c11;
 mod c12;
 mod c13;
+mod c14;
 mod c15;
 mod c16;
 mod c17;
@@ -49,6 +50,8 @@ fn main() {
         "C11" => c11::main(&args[1..]),
         "C12" => c12::main(&args[1..]),
         "C13" => c13::main(&args[1..]),
+        "C14" => c14::main(&args[1..]),
+        "C14-child" => c14::child(&args[1..]),
         "C15" => c15::main(&args[1..]),
         "C16" => c16::main(&args[1..]),
         "C17" => c17::main(&args[1..]),
